@@ -6,7 +6,8 @@ its stream — with the SSN / MID / FSN / B / E / PPI / length that position dic
 `tsn + j`, `j` = the position of that fragment in the order in which fragments were moved to in flight. A fragment
 identity occurs at most once among the written chunks, hence at most once among the moved ones: one fragment, one TSN.
 -/
-namespace SenderProofs
+namespace SenderTsn
+open SenderProofs
 open Gen Sender
 open NetSys (Write accepts)
 
@@ -161,4 +162,4 @@ theorem wire_ident (cfg : Cfg) (tsn peerRwnd : BitVec 32) (lenOf : Nat → Nat) 
   · rw [hidx, ← hmt]
     exact htsn j m hj
 
-end SenderProofs
+end SenderTsn
